@@ -944,6 +944,13 @@ func c03HeaderCases(c *Ctx) {
 // the witnesses of the repaired defects F1, F2, F3, F24 are always replayed
 func c03Regressions(c *Ctx) {
 	r := c.R
+	{ // known finding F25: periods [0, -5] give -5, not the maximum
+		h0 := c03Header{st: []profile.ValueType{{Type: "samples", Unit: "count"}}, pt: &profile.ValueType{Type: "cpu", Unit: "ns"}}
+		h1 := h0
+		h1.period = -5
+		c03Emit(c, "finding-F25", []*profile.Profile{c03Instantiate(r, c03BaseWorld(), h0, []c03Use{{0, []int64{1}}}, 0, false, true),
+			c03Instantiate(r, c03BaseWorld(), h1, []c03Use{{0, []int64{1}}}, 0, false, true)}, true)
+	}
 	h := c03Header{st: []profile.ValueType{{Type: "samples", Unit: "count"}}, pt: &profile.ValueType{Type: "cpu", Unit: "ns"}}
 	// F1: locations differing only in the column of a non-last inline line
 	w := c03BaseWorld()
